@@ -88,6 +88,13 @@ pub fn run(r: &Req) -> Option<String> {
             let score = r.opt_f64("s");
             Some(with_t!(r, v, T => v.vpercentile_of(<T as El>::mk(score), m).tok()))
         },
+        "vrank" if crate::types::elem_type(r) == "dt" => {
+            // a time element type: NaT is the null, the order is the order of the timestamps
+            let (pct, rev) = (r.bool("pct"), r.bool("rev"));
+            let v: Vec<DateTime<unit::Nanosecond>> = r.series("xs").iter().map(|x| match x { Some(t) => DateTime::new(*t as i64), None => DateTime::nat() }).collect();
+            let o: Vec<f64> = v.vrank(pct, rev);
+            Some(crate::proto::toks(&o))
+        },
         "vrank" => {
             let (pct, rev) = (r.bool("pct"), r.bool("rev"));
             Some(with_t!(r, v, T => match crate::types::out_type(r) {
@@ -273,6 +280,9 @@ pub fn generate(tier: &str, rng: &mut Rng) -> (Vec<String>, bool) {
                     if exhaustive || len <= full + 1 || (pct * 2 + rev + si) % 4 == 0 {
                         let o = if (si + pct + rev) % 2 == 0 { "f64" } else { "of64" };
                         out.push(format!("vrank t={} o={} pct={} rev={} xs={}", pick_type(xs, si + pct + rev, false), o, pct, rev, x));
+                        if (si + pct + rev) % 4 == 0 && !x.contains('/') {
+                            out.push(format!("vrank t=dt o=f64 pct={} rev={} xs={}", pct, rev, x));
+                        }
                     }
                 }
             }
